@@ -87,7 +87,7 @@ impl Prop for C11S {
         crate::common::classify(self.id(), loc, msg)
     }
     fn rule_text(&self) -> &'static str {
-        "schedule part of C11: a target resource whose single rule rejects everything by its state (flow reject threshold 0, hotspot QPS threshold 0, or a breaker tripped Open with the retry timeout far away, clock frozen) is reloaded by one or two simulated threads (load-all or load-for-resource, equal target rule under a new id, unrelated resources changed) while 1-2 other simulated threads request entries on it, under our own seeded scheduler; every request must be rejected in every interleaving, also after the reload, and the breaker must still be Open. Slip programs: the target starts without a rule, one thread loads everything incl. the target's rule while another loads the equal rule for the target alone and then uses up its allowance (threshold 1, or one failure that opens the breaker); updates being serialised, the allowance must stay used up in every interleaving. Non-trivial = execution with >= 1 preemption; distinct = distinct (schedule, outcome) hash."
+        "schedule part of C11: a target resource whose single rule rejects everything by its state (flow reject threshold 0, hotspot QPS threshold 0, or a breaker tripped Open with the retry timeout far away, clock frozen) is reloaded by one or two simulated threads (load-all or load-for-resource, equal target rule under a new id, unrelated resources changed) while 1-2 other simulated threads request entries on it, under our own seeded scheduler; every request must be rejected in every interleaving, also after the reload, and the breaker must still be Open. Slip programs: the target starts without a rule, one thread loads everything incl. the target's rule (or loads it for the resource alone) while another loads the equal rule for the target alone and then uses up its allowance (threshold 1, or one failure that opens the breaker); updates being serialised, the allowance must stay used up in every interleaving. Non-trivial = execution with >= 1 preemption; distinct = distinct (schedule, outcome) hash."
     }
     fn components(&self) -> Value {
         json!({"real": ["sentinel-core (mechanically rewritten copy): flow / hotspot / circuit-breaker managers, slots, EntryBuilder"],
@@ -193,9 +193,14 @@ fn slip_body(epoch_ns: u64, prog: &Program, obs: Obs) {
     {
         let prog = prog.clone();
         handles.push(shuttle::thread::spawn(move || {
-            let mut all = prog.others_after.clone();
-            all.insert(0, slip_rule(variant, &prog.target, "t_all"));
-            fam::load_all(fam, &all);
+            if prog.mode == 0 {
+                let mut all = prog.others_after.clone();
+                all.insert(0, slip_rule(variant, &prog.target, "t_all"));
+                fam::load_all(fam, &all);
+            } else {
+                // the other updater, too, loads for the resource alone
+                let _ = fam::load_res(fam, &prog.target, &[slip_rule(variant, &prog.target, "t_all")]);
+            }
         }));
     }
     {
